@@ -116,6 +116,21 @@ def rule_metadata(repo, rep):
     site = f"{TW}:TFLiteSerialiser.serialise_model"
     oa = [s for s in walk_no_nested(f) if isinstance(s, ast.Assign) and norm(s.targets[0]) == "offlineAlloc"]
     rep.check(len(oa) == 1 and norm(oa[0].value) == "[version, subgraph_idx, nbr_tensors_all]", "C12-c", site, "header = [version, subgraph count, tensor count]", norm(oa[0].value) if oa else "")
+    # the record describes *this* output model: it is always rebuilt; a record carried over from the input file (every file written
+    # by Vela itself has one) is never passed through
+    apps = [c_ for c_ in ast.walk(f) if isinstance(c_, ast.Call) and isinstance(c_.func, ast.Attribute) and c_.func.attr == "append" and "OfflineMemoryAllocation" in str(norm(c_)) and "metadata" in str(norm(c_.func.value))]
+    if len(apps) != 1:
+        raise AnalysisError("serialise_model: the statement that adds the OfflineMemoryAllocation record was not found")
+    cond = []
+    cur = apps[0]
+    while cur is not None and cur is not f:
+        par = tw.parents.get(cur)
+        if isinstance(par, ast.If) and "OfflineMemoryAllocation" in str(norm(par.test)):
+            cond.append(str(norm(par.test))[:90])
+        cur = par
+    rep.check(not cond, "C12-c", site, "the OfflineMemoryAllocation record is built and added for every output model",
+              f"added only under `{cond[0] if cond else ''}`: for an input that already carries such a record (a recompiled model, any file written by Vela's writer) the old record "
+              "- wrong tensor count, old offsets - is written and the new allocation is dropped")
     defs = {norm(s.targets[0]): norm(s.value) for s in walk_no_nested(f) if isinstance(s, ast.Assign)}
     rep.check(defs.get("subgraph_idx") == "np.int32(len(self.subgraphs_to_write))", "C12-c", site, "subgraph count = number of written subgraphs", defs.get("subgraph_idx", ""))
     rep.check("len(tensor_map_sg) for tensor_map_sg in self.tensor_map_all" in defs.get("nbr_tensors_all", ""), "C12-c", site, "tensor count sums the per-subgraph tensor tables", defs.get("nbr_tensors_all", ""))
